@@ -231,6 +231,14 @@ Definition round0 (l : num) : res fval :=
   | NDec m e => if dec_small m e then Ok (FInt (dec_round_int m e)) else unmodelled
   end.
 
+(** m / P rounded half-even to an integer, times p (P = p for an integer m;
+    P = p * 10^-e for the coefficient of a decimal with e < 0). *)
+Definition round_to_mult (m P p : Z) : Z :=
+  let q := m / P in
+  let r := m mod P in
+  if 2 * r <? P then q * p else if P <? 2 * r then (q + 1) * p
+  else if Z.even q then q * p else (q + 1) * p.
+
 (** math.py:81 [round_]; [digits = None] stands for a missing / nil argument. *)
 Definition round_f (left : fval) (digits : option fval) : res fval :=
   do l <- math_left left;;
@@ -242,7 +250,16 @@ Definition round_f (left : fval) (digits : option fval) : res fval :=
       | Ok dn =>
           let n := match dn with NInt z => z | NDec m e => dec_trunc m e end in
           if match dn with NDec m e => negb (dec_small m e) | _ => false end then unmodelled
-          else if n <? 0 then Ok (FInt 0)
+          else if n <? 0 then
+            (* after the fix: int(round(left, n)), half-even to a multiple of 10^-n *)
+            match l with
+            | NInt z => Ok (FInt (round_to_mult z (10 ^ (- n)) (10 ^ (- n))))
+            | NDec m e =>
+                if dec_small m e then
+                  Ok (FInt (if 0 <=? e then round_to_mult (m * 10 ^ e) (10 ^ (- n)) (10 ^ (- n))
+                            else round_to_mult m (10 ^ (- e - n)) (10 ^ (- n))))
+                else unmodelled
+            end
           else if n =? 0 then round0 l
           else match l with
                | NInt z => Ok (FInt z)
